@@ -187,6 +187,16 @@ func (w *worker) runConc(cs J) J {
 	if err := loadState(obsC, pre, ctx); err != nil {
 		return fail("load: " + err.Error())
 	}
+	// scale > 1: block-scaled run (scale.go) - the history is recorded in the specification's small universe
+	scale := 0
+	if v, ok := cs["scale"]; ok {
+		scale = int(jInt(v))
+	}
+	if scale > 1 {
+		if err := scaleLoad(obsC, pre, scale); err != nil {
+			return fail("load: " + err.Error())
+		}
+	}
 	progs := cs["progs"].(J)
 	ids := []int{}
 	for k := range progs {
@@ -307,7 +317,7 @@ func (w *worker) runConc(cs J) J {
 					for i := lo; i < hi; i++ {
 						cmd := jCmd(cmds[i])
 						add(histEvent{stamp: atomic.AddInt64(&stamp, 1), E: "inv", C: c, I: i + 1, Cmd: cmdJ(cmd)})
-						buf.Write(EncodeCmd(cmd))
+						buf.Write(EncodeCmd(scaleCmd(cmd, scale)))
 					}
 					cn.c.SetWriteDeadline(time.Now().Add(w.timeout))
 					if _, err := cn.c.Write(buf.Bytes()); err != nil {
@@ -320,7 +330,7 @@ func (w *worker) runConc(cs J) J {
 							atomic.StoreInt32(&broken, 1)
 							return
 						}
-						add(histEvent{stamp: atomic.AddInt64(&stamp, 1), E: "ret", C: c, I: i + 1, R: replyJ(rep)})
+						add(histEvent{stamp: atomic.AddInt64(&stamp, 1), E: "ret", C: c, I: i + 1, R: unscaleReply(jCmd(cmds[i]), rep, scale)})
 					}
 				}
 				return
@@ -328,12 +338,12 @@ func (w *worker) runConc(cs J) J {
 			for i, cm := range cmds {
 				cmd := jCmd(cm)
 				add(histEvent{stamp: atomic.AddInt64(&stamp, 1), E: "inv", C: c, I: i + 1, Cmd: cmdJ(cmd)})
-				rep, err := cn.Do(cmd...)
+				rep, err := cn.Do(scaleCmd(cmd, scale)...)
 				if err != nil {
 					atomic.StoreInt32(&broken, 1)
 					return
 				}
-				add(histEvent{stamp: atomic.AddInt64(&stamp, 1), E: "ret", C: c, I: i + 1, R: replyJ(rep)})
+				add(histEvent{stamp: atomic.AddInt64(&stamp, 1), E: "ret", C: c, I: i + 1, R: unscaleReply(cmd, rep, scale)})
 			}
 		}(c, cmds)
 	}
@@ -354,6 +364,9 @@ recorded:
 	if err != nil {
 		w.restart()
 		return fail("final projection: " + err.Error())
+	}
+	if scale > 1 {
+		unscaleState(ob, scale)
 	}
 	sort.Slice(events, func(i, j int) bool { return events[i].stamp < events[j].stamp })
 	// copy each op's reply onto its inv event (the trace spec prunes the search with it)
